@@ -23,7 +23,7 @@ From Coq Require Import List Arith Bool Lia Permutation.
 From LMBase Require Import Res ListX.
 From Coq Require Import ZArith.
 From LMBase Require Import IEEE.
-From LMScan Require Import ScanModel ScanLemmas ScanProofs ScanCheck CheckProofs ScanConcrete F32Order ConcreteProofs DiscLink.
+From LMScan Require Import ScanModel ScanLemmas ScanProofs ScanCheck CheckProofs ScanConcrete F32Order ConcreteProofs DiscLink DiscBridge.
 Import ListNotations.
 
 (* (1) Soundness, unconditional (any block size incl. 0, any wrap, any matrix; whatever
@@ -318,6 +318,57 @@ Proof.
   exact (c_scale_transfer (ce_dm v) _ thr _ (env_sign_clear K C pssm sq wrap v Henv) (Hmain i Hi) Hg).
 Qed.
 
+(* and finally with no numeric hypothesis left, for well-conditioned matrices: the
+   discretisation group proves C08's main clause for binary32 under its executable
+   conditioning predicate (coq/disc C08_f32_main_well_conditioned_partial: finite
+   non-wildcard cells; factor not NaN and either 0 or >= 8 (M+1) ulp(A), A = the sum of the
+   rows' largest magnitudes; at most 16384 rows; A <= 2^126), and the two models of
+   to_discrete / scale / the window scores agree (DiscBridge.v).  So, for every such matrix,
+   every sequence, wrap >= M-1, arm, block size >= 1 and threshold, the concrete binary32
+   scanner yields exactly the positions whose binary32 score is >= thr, once each, with
+   that score, without panicking.  (Ill-conditioned matrices, known finding F14, fail the
+   predicate.) *)
+Theorem C02_concrete_scan_well_conditioned :
+  forall (K C : nat) (pssm : list (list F32.t)) (sq : list nat) (wrap : nat) (v : cenv)
+         (am : arm) (thr : F32.t) (B : nat),
+    wf_input K C pssm sq wrap ->
+    c_env K C pssm sq wrap = Ok v ->
+    1 <= B ->
+    finite_nonwild K pssm ->
+    well_conditioned K pssm (ce_dm v) ->
+    exists H : list (nat * F32.t),
+      ce_collect v am thr B = Ok H /\
+      (forall i x, In (i, x) H <->
+                   i + length pssm <= length sq /\
+                   F32.ge (score_def K sq pssm i) thr = true /\ x = score_def K sq pssm i) /\
+      NoDup (map fst H).
+Proof.
+  intros K C pssm sq wrap v am thr B Hwf Henv HB Hfin Hwc.
+  apply (C02_concrete_scan_c08 K C pssm sq wrap v am thr B Hwf Henv HB).
+  intros i _. exact (env_main_clause K C pssm sq wrap v Hwf Henv Hfin Hwc i).
+Qed.
+
+(* the same with the side conditions as the boolean the driver evaluates on every case
+   whose hits do not match (extracted wc_input; PROPFAIL detail `wc=true|false`) *)
+Theorem C02_concrete_scan_wc_checked :
+  forall (K C : nat) (pssm : list (list F32.t)) (sq : list nat) (wrap : nat) (v : cenv)
+         (am : arm) (thr : F32.t) (B : nat),
+    wf_input K C pssm sq wrap ->
+    c_env K C pssm sq wrap = Ok v ->
+    1 <= B ->
+    wc_input K pssm (d_factor (ce_dm v)) = true ->
+    exists H : list (nat * F32.t),
+      ce_collect v am thr B = Ok H /\
+      (forall i x, In (i, x) H <->
+                   i + length pssm <= length sq /\
+                   F32.ge (score_def K sq pssm i) thr = true /\ x = score_def K sq pssm i) /\
+      NoDup (map fst H).
+Proof.
+  intros K C pssm sq wrap v am thr B Hwf Henv HB Hwc.
+  destruct (wc_input_sound K pssm (ce_dm v) Hwc) as (Hfin & Hw).
+  exact (C02_concrete_scan_well_conditioned K C pssm sq wrap v am thr B Hwf Henv HB Hfin Hw).
+Qed.
+
 (* soundness needs no hypothesis at all on the concrete scanner: whatever the matrix,
    sequence, wrap, block size (0 included) and arm, the hits it yields are distinct valid
    positions with their exact scores, all >= thr *)
@@ -360,6 +411,20 @@ Check C02_scan_complete :
       (forall i x, In (i, x) H <-> i < Lm /\ geb (score i) thr = true /\ x = score i) /\
       NoDup (map fst H) /\
       Permutation H (omap (fun i => if geb (score i) thr then Some (i, score i) else None) (seq 0 Lm)).
+
+Check C02_concrete_scan_wc_checked :
+  forall (K C : nat) (pssm : list (list F32.t)) (sq : list nat) (wrap : nat) (v : cenv)
+         (am : arm) (thr : F32.t) (B : nat),
+    wf_input K C pssm sq wrap ->
+    c_env K C pssm sq wrap = Ok v ->
+    1 <= B ->
+    wc_input K pssm (d_factor (ce_dm v)) = true ->
+    exists H : list (nat * F32.t),
+      ce_collect v am thr B = Ok H /\
+      (forall i x, In (i, x) H <->
+                   i + length pssm <= length sq /\
+                   F32.ge (score_def K sq pssm i) thr = true /\ x = score_def K sq pssm i) /\
+      NoDup (map fst H).
 
 (* ---------- non-vacuity ---------- *)
 
@@ -460,3 +525,9 @@ Example C02_concrete_c08_nonvacuous :
             c_scale (ce_dm Ex.env) (score_def 5 Ex.sq Ex.pssm i)
             <= dscore_def 5 Ex.sq (d_data (ce_dm Ex.env)) i.
 Proof. exact Ex_main. Qed.
+
+(* ... and so do the side conditions of C02_concrete_scan_well_conditioned *)
+Example C02_concrete_well_conditioned_nonvacuous :
+  wf_input 5 32 Ex.pssm Ex.sq 2 /\ c_env 5 32 Ex.pssm Ex.sq 2 = Ok Ex.env /\
+  finite_nonwild 5 Ex.pssm /\ well_conditioned 5 Ex.pssm (ce_dm Ex.env).
+Proof. split; [exact Ex.wf|]. split; [exact Ex.env_ok|]. split; [exact Ex_finite|exact Ex_well_conditioned]. Qed.
